@@ -9,6 +9,10 @@
            has <col> <type> <neg 0|1> <icase 0|1> <lit> | in <col> <type> <k> <lit>*k
            btw <col> <type> <lit> <lit> | sym <col> <type>
         lit : S<hex|-> | I<dec> | F<16 hex> | B0 | B1 | T<sec>:<nsec>
+     S                                           the object stores are replaced by new instances (a new session;
+                                                 the model has no state: Query/ObjectSession.v)
+     QV <style> <order> ...                      Q whose text is spelled differently outside its literals (c19seq.go):
+                                                 the same query
    Output:  objectz=<count>:<ids> boltz=<count>:<ids> spec=<count>:<ids> legacy=<count>:<ids> ok=<0|1> *)
 let parse_cell (t : string) : cell =
   let rest () = String.sub t 1 (String.length t - 1) in
@@ -76,7 +80,8 @@ let () =
           | [] -> failwith "short dataset" in
         current := rows n rest [];
         print_endline "D"
-    | "Q" :: order :: rest ->
+    | "S" :: _ -> print_endline "S"
+    | "Q" :: order :: rest | "QV" :: _ :: order :: rest ->
         let rows = !current in
         let objs = if order = "-" then [] else
           List.map (fun i -> List.nth rows (int_of_string i)) (String.split_on_char ',' order) in
